@@ -3,6 +3,7 @@
 # Confirms a seeded change (compiles, suite green, demo fails with / passes without),
 # stores it under /verif/seeded/<name>/ and runs the property's quick check against it.
 set -u
+export VERIF_EVIDENCE_DIR=/verif/.work/evidence-scratch  # keep the evidence of the unchanged tree
 id=$1; wt=$2; name=$3; shift 3
 checks="${@:-$id}"
 export GOFLAGS=-mod=mod GOPROXY=off GOSUMDB=off GOTOOLCHAIN=local
